@@ -83,6 +83,13 @@ def cases(tier, seed):
                     for adjust in ("spacing", "region"):
                         for pixel in (False, True):
                             yield dict(kind="grid", sc=1.0, region=region, spec=spec, adjust=adjust, pixel=pixel, mesh=True, extra=None, argtype="int")
+            # region / shape / spacing given as numpy arrays (integer and float): same results, and the caller's arrays are untouched
+            # (seed C07-7: an in-place decrement of the shape array)
+            for region in REGIONS:
+                for spec in (dict(shape=[2, 3]), dict(shape=[4, 6]), dict(shape=[1, 5]), dict(spacing=[2.0, 1.0]), dict(spacing=[0.5, 0.75])):
+                    for adjust in ("spacing", "region"):
+                        for pixel in (False, True):
+                            yield dict(kind="grid", sc=1.0, region=region, spec=spec, adjust=adjust, pixel=pixel, mesh=True, extra=None, argtype="ndarray")
             # adjust='region' with a spacing that almost - but not exactly - fits, for many intervals (seed C07-r3_1: "close enough"
             # tests): the step must be the requested spacing and the far bound start + k * spacing
             for start, stop in ((0.0, 1000.0), (-3.0, 60.0), (0.0, 0.7)):
@@ -237,7 +244,29 @@ def run(case, rec):
             region = [int(v) for v in region]
             if "spacing" in kw:
                 kw["spacing"] = tuple(int(v) for v in kw["spacing"]) if isinstance(kw["spacing"], tuple) else int(kw["spacing"])
-        got = call(rec, vd.grid_coordinates, region, **kw)
+        as_arrays = case.get("argtype") == "ndarray"
+        if as_arrays:
+            region_arg = np.array(region, dtype=float)
+            for k_ in ("shape", "spacing"):
+                if k_ in kw:
+                    kw[k_] = np.array(kw[k_]) if k_ == "shape" else np.array(kw[k_], dtype=float)
+            snap = {k_: v_.copy() for k_, v_ in dict(kw, region=region_arg).items() if isinstance(v_, np.ndarray)}
+            got = call(rec, vd.grid_coordinates, region_arg, **kw)
+            now = dict(kw, region=region_arg)
+            rec.check(all(np.array_equal(now[k_], v_) and now[k_].dtype == v_.dtype for k_, v_ in snap.items()),
+                      "grid_coordinates modified an argument array: %r -> %r" % ({k_: v_.tolist() for k_, v_ in snap.items()}, {k_: now[k_].tolist() for k_ in snap}))
+            if "shape" in kw:
+                for pr_ in (False, True):
+                    shp_arr = np.array(spec["shape"])
+                    first = call(rec, vd.coordinates.shape_to_spacing, region_arg, shp_arr, pixel_register=pr_)
+                    rec.check(np.array_equal(shp_arr, spec["shape"]) and np.array_equal(region_arg, region),
+                              "shape_to_spacing(pixel_register=%r) modified its arguments: shape %r -> %r" % (pr_, spec["shape"], shp_arr.tolist()))
+                    if pr_ or min(spec["shape"]) > 1:
+                        ref_ = call(rec, vd.coordinates.shape_to_spacing, list(region), tuple(spec["shape"]), pixel_register=pr_)
+                        rec.check(not raised(first) and not raised(ref_) and tuple(float(v) for v in first) == tuple(float(v) for v in ref_),
+                                  "shape_to_spacing with array arguments %r differs from tuple arguments %r" % (first, ref_))
+        else:
+            got = call(rec, vd.grid_coordinates, region, **kw)
         if not mesh and extra is not None:
             rec.trivial = True
             rec.cls("refusal:meshgrid=False+extra")
